@@ -186,6 +186,29 @@ def run_system(case, events, callbacks=None, target=None):
     raised = None
     if target is None and case.get("against"):
         target = dtype(tf)
+    if case.get("rearmed") and events:
+        # the SAME event function objects have served another system before, with OTHER attributes (direction reversed or switched on, terminal flag
+        # toggled); the caller then sets them to what this cell asks for.  What an event function requests is read when it is monitored, not remembered.
+        saved = [(getattr(g, "direction", None), getattr(g, "is_terminal", None)) for g in events]
+        for g in events:
+            g.direction = -g.direction if getattr(g, "direction", 0) else 1
+            g.is_terminal = not getattr(g, "is_terminal", False)
+        try:
+            a0 = de.OdeSystem(prob.f, y0=y0.copy(), t=(dtype(t0), dtype(tf_cfg)), dt=dtype(case["dt0"]), rtol=dtype(tol), atol=dtype(tol), dense_output=False, constants=dict(CONSTS))
+            a0.method = lc.by_name(case["method"])
+            with in_library():
+                a0.integrate(dtype(t0 + 0.0625 * (case["span"][1] - case["span"][0])), events=events, callback=[driver.Budget(5000)])
+        except Exception:
+            pass
+        for g, (dr_, tm_) in zip(events, saved):
+            if dr_ is None:
+                del g.direction
+            else:
+                g.direction = dr_
+            if tm_ is None:
+                del g.is_terminal
+            else:
+                g.is_terminal = tm_
     try:
         with in_library():
             if case.get("prelude"):
@@ -335,6 +358,16 @@ def cells(quick):
                                     evs = [dict(kind=kind, tau=tau, s=1.0, dir=dr)]
                                     # (the offset is measured ALONG the run: positive = the first call ends just past the root, in either direction of time)
                                     out.append(dict(problem=pname, span=list(span), dt0=dt0, method=m, dense=dense, dtype="float64", events=evs, tol=1e-8, handover=tau + off * (1.0 if span[1] > span[0] else -1.0)))
+    # event function objects that were monitored before, by another system, with other attributes
+    for pname, spans, dt0 in (("lin", LIN_SPANS, 0.5), ("osc", OSC_SPANS, 0.25)):
+        for span, taus in list(spans.items())[:2]:
+            for es in ([dict(kind="time", tau=taus[1])], [dict(kind="state", tau=taus[1])], [dict(kind="state", tau=taus[0]), dict(kind="time", tau=taus[2])]):
+                for dr in (0, 1, -1):
+                    for m in METHODS:
+                        for dense in (True, False):
+                            if quick and not dense and m not in ("RK4Solver", "RK45CKSolver"):
+                                continue
+                            out.append(dict(problem=pname, span=list(span), dt0=dt0, method=m, dense=dense, dtype="float64", events=[dict(e, s=1.0, dir=dr) for e in es], tol=1e-8, rearmed=True))
     # ... and at the SECOND root of one function (it has fired before in the same run when the hand-over comes)
     for pname, spans, dt0 in (("lin", LIN_SPANS, 0.5), ("osc", OSC_SPANS, 0.25)):
         for span, taus in list(spans.items())[:2]:
